@@ -85,6 +85,7 @@ def run_block(interp, meta, fn_suffix, block_name, extra_args=()):
         proc.stack.multi_step = True
         it.begin_run(proc)
         it.info["cond"] = proc.stack.top[0]
+        it.info["top_before"] = list(proc.stack.top)
         ref = Ref({"p": proc}, "p")
         blk = Opaque(block_name)
         return lambda: it.run_fn(it.fns[fn[0]].parsed(), [ref, Ref({"b": blk}, "b"), Opaque("cb_table")] + list(extra_args))
@@ -294,6 +295,92 @@ def native_loop_replay(V, cov):
     return json.load(open(of))["results"], jobs
 
 
+def check_join(interp, meta, V, cov):
+    paths = run_block(interp, meta, "execute_join_block", "join")
+    cov["paths"] += len(paths)
+    seen_full = False
+    for pi, res in enumerate(paths):
+        kind, err, children, dec = summarize(res)
+        tag = f"join#p{pi}"
+        if kind == "panic":
+            V.add(tag, "inconclusive", detail=str(res.value))
+            continue
+        if kind == "err" and err == "CycleLimitExceeded":
+            continue
+        ok_order = children == ["join.first", "join.second"][:len(children)]
+        if not ok_order or (kind == "ok" and len(children) != 2):
+            path = save_replay(PROP, f"join_{pi}", dict(kind="join", children=children, outcome=kind))
+            V.violation(tag, path, f"join block executed children {children} (outcome {kind}/{err})", key=f"join:children:{children}")
+            continue
+        if kind == "ok":
+            seen_full = True
+            V.add(f"{tag}: first then second, each exactly once, between start_join and the END row",
+                  "discharged" if dec[:1] == ["start_join"] and dec[-1] == "end_control_block" else "inconclusive", detail=str(dec))
+        else:
+            V.add(f"{tag}: a failing child stops the block ({len(children)} child(ren) run, error {err} propagated)", "discharged" if err == "ChildError" else "inconclusive", detail=str(err))
+    V.add("join: a path executing both children exists", "discharged" if seen_full else "inconclusive")
+
+
+def check_dyn(interp, meta, V, cov):
+    """dyn: the callee is looked up by the word on top of the stack, in the order (s3, s2, s1, s0) the block hash table
+    and the hasher use; an unknown hash is an error before anything is executed"""
+    state = {}
+
+    def n_cb_get(it, a, d, m):
+        key = pm.deref(a[1])
+        it.info["lookup_key"] = key
+        if it.decide(z3.Bool("callee_known")):
+            return En("Some", [Ref({"b": Opaque("dyn.callee")}, "b")], ty="Option")
+        return En("None", [], ty="Option")
+
+    def n_ok_or_else(it, a, d, m):
+        o = pm.deref(a[0])
+        if o.variant == "Some":
+            return En("Ok", [o.fields[0]], ty="Result")
+        return En("Err", [En("DynamicCodeBlockNotFound", [it.info.get("lookup_key")], ty="ExecutionError")], ty="Result")
+
+    extra = [(re.compile(r"(?:\w+::)*CodeBlockTable::get"), n_cb_get),
+             (re.compile(r"Option::<&CodeBlock>::ok_or_else::<ExecutionError, .*>"), n_ok_or_else),
+             (re.compile(r"<\[Felt; 4\] as Into<RpoDigest>>::into|<RpoDigest as From<\[Felt; 4\]>>::from"), pm.n_identity),
+             (re.compile(r"Decoder::start_dyn"), lambda it, a, d, m: (it.events.append(("decoder", "start_dyn", [pm.deref(x) for x in a[1:]])), UNIT)[1])]
+    saved = interp.natives
+    interp.natives = extra + saved
+    try:
+        paths = run_block(interp, meta, "execute_dyn_block", "dyn")
+    finally:
+        interp.natives = saved
+    cov["paths"] += len(paths)
+    ran = False
+    for pi, res in enumerate(paths):
+        kind, err, children, dec = summarize(res)
+        tag = f"dyn#p{pi}"
+        if kind == "panic":
+            V.add(tag, "inconclusive", detail=str(res.value))
+            continue
+        if kind == "err" and err == "CycleLimitExceeded":
+            continue
+        key = res.info.get("lookup_key")
+        top = res.info.get("top_before") or []
+        if key is not None and len(top) >= 4:
+            ctx = res.ctx
+            want = [top[3], top[2], top[1], top[0]]
+            same = all(ctx.eq(pm.deref(k).l, w.l) is not None and holds(res, ctx.eq(pm.deref(k).l, w.l)) for k, w in zip(key, want))
+            V.add(f"{tag}: the callee is looked up by the word (s3, s2, s1, s0) on top of the stack", "discharged" if same else "inconclusive")
+        if children == ["dyn.callee"]:
+            ran = True
+            V.add(f"{tag}: the callee runs exactly once, only when the hash is known", "discharged" if holds(res, z3.Bool("callee_known")) else "inconclusive")
+        elif not children:
+            if kind == "err" and err == "DynamicCodeBlockNotFound":
+                V.add(f"{tag}: an unknown hash is an error and nothing is executed", "discharged" if holds(res, z3.Not(z3.Bool("callee_known"))) else "inconclusive")
+            else:
+                path = save_replay(PROP, f"dyn_{pi}", dict(kind="dyn", outcome=kind, err=err))
+                V.violation(tag, path, f"dyn block: path without a child ends {kind}/{err}", key=f"dyn:nochild:{kind}:{err}")
+        else:
+            path = save_replay(PROP, f"dyn_{pi}", dict(kind="dyn", children=children))
+            V.violation(tag, path, f"dyn block executed children {children}", key=f"dyn:children:{children}")
+    V.add("dyn: a path executing the callee exists", "discharged" if ran else "inconclusive")
+
+
 def main():
     t0 = time.time()
     V = Verdict(PROP)
@@ -303,6 +390,8 @@ def main():
     try:
         check_split(interp, meta, V, cov)
         check_loop(interp, meta, V, cov)
+        check_join(interp, meta, V, cov)
+        check_dyn(interp, meta, V, cov)
     except Unsupported as e:
         V.add("block-executors", "inconclusive", detail=f"MIR construct outside the interpreter's subset: {e}")
     nat, jobs = native_loop_replay(V, cov)
@@ -325,7 +414,7 @@ def main():
         states=cov["paths"], transitions=c.get("discharged", 0), traces_validated_against_impl=cov["native"],
         samples=[o for o in V.obligations if o["status"] != "discharged"][:5] + V.obligations[:5],
         obligations=len(V.obligations), discharged=c.get("discharged", 0),
-        functions_encoded=["Process::execute_split_block, execute_loop_block (MIR)", "decoder::<impl Process>::start_split_block/end_split_block/start_loop_block/end_loop_block (MIR)",
+        functions_encoded=["Process::execute_split_block, execute_loop_block, execute_join_block, execute_dyn_block (MIR)", "decoder::<impl Process>::start_split_block/end_split_block/start_loop_block/end_loop_block (MIR)",
                            "Process::execute_op for the Drop/Noop rows of block starts and ends (MIR)"],
         bounds=f"loop unrolled to {MAX_ITER} body executions (then cut by assuming the top is not 1); children are opaque (any effect on the stack top, may fail)",
         not_covered="repeat.n unrolling and exec inlining in the assembler (compile_body / combine_blocks): string/BTreeMap state outside both engines",
